@@ -9,4 +9,9 @@ META = {
   "text": "Generated-input search over brace-heavy byte strings (200k keys quick, 20M + coverage-guided fuzz thorough) comparing all three slot computations of the tool with an independent bitwise CRC16/hash-tag implementation. Exploration, not proof: the function is pure and tiny, so dense sampling of the brace-arrangement space is the right level.",
   "note": "Trusts ref/hashslot (written from the cluster spec, unit-checked against published check values).",
  },
+ "C12": {
+  "technique": "property-based testing (rapid): reference RESP encoder + fragmenting reader, offset == bytes-consumed oracle, byte-exact encoder round trips; native go fuzzing in the thorough tier",
+  "text": "Generated command sequences with arbitrary binary/large arguments are decoded through every buffer size and read fragmentation; arguments must come back byte-identical and the decoder offset must equal the number of bytes consumed after every command. Exploration level: the decoder is a small pure state machine over bytes, so dense generated coverage of buffer/fragment boundaries is appropriate.",
+  "note": "Trusts the 20-line reference encoder ref/resp. Command names are drawn from ASCII names (the tool lower-cases names; Redis command names are ASCII).",
+ },
 }
